@@ -6,6 +6,7 @@ package main
 import (
 	"fmt"
 	"go/types"
+	"os"
 	"sort"
 	"strings"
 
@@ -105,6 +106,9 @@ type Path struct {
 	fnsHit    map[*ssa.Function]bool
 	nQueries  int
 	mapOrderRev bool
+	domVersion   int
+	simpVersion  int
+	simpMemo     map[int]*Term
 	epoch        int
 	cur          *Frame
 	nChans       int
@@ -186,13 +190,27 @@ func (p *Path) narrow(c *Term, want bool) {
 }
 
 // addPC records a constraint known to be consistent with the path.
+// Conjunctions are split so that single-variable conjuncts narrow domains.
 func (p *Path) addPC(c *Term) {
 	if c.IsConst() {
+		return
+	}
+	if c.Op == OpAnd {
+		for _, a := range c.Args {
+			p.addPC(a)
+		}
+		return
+	}
+	if c.Op == OpNot && c.Args[0].Op == OpOr {
+		for _, a := range c.Args[0].Args {
+			p.addPC(p.tt().Not(a))
+		}
 		return
 	}
 	p.pc = append(p.pc, c)
 	if c.SV != nil {
 		p.narrow(c, true)
+		p.domVersion++
 		return
 	}
 	sup := map[*Var]bool{}
@@ -267,6 +285,67 @@ func (p *Path) step() {
 	}
 }
 
+// simp partially evaluates a Bool term under the current narrowed domains.
+func (p *Path) simp(t *Term) *Term {
+	if t.IsConst() {
+		return t
+	}
+	if p.simpVersion != p.domVersion {
+		p.simpMemo = map[int]*Term{}
+		p.simpVersion = p.domVersion
+	}
+	if r, ok := p.simpMemo[t.ID]; ok {
+		return r
+	}
+	tt := p.tt()
+	r := t
+	if t.SV != nil {
+		if p.curDom(t.SV) != nil {
+			vals := p.tabValues(t)
+			if len(vals) == 1 {
+				r = tt.Const(t.S, vals[0])
+			}
+		}
+	} else {
+		switch t.Op {
+		case OpNot:
+			r = tt.Not(p.simp(t.Args[0]))
+		case OpAnd, OpOr:
+			as := make([]*Term, len(t.Args))
+			ch := false
+			for i, a := range t.Args {
+				as[i] = p.simp(a)
+				if as[i] != a {
+					ch = true
+				}
+			}
+			if ch {
+				if t.Op == OpAnd {
+					r = tt.And(as...)
+				} else {
+					r = tt.Or(as...)
+				}
+			}
+		case OpEq:
+			a, b := p.simp(t.Args[0]), p.simp(t.Args[1])
+			if a != t.Args[0] || b != t.Args[1] {
+				r = tt.Eq(a, b)
+			}
+		case OpIte:
+			c := p.simp(t.Args[0])
+			if c.IsConst() {
+				if c.C != 0 {
+					r = p.simp(t.Args[1])
+				} else {
+					r = p.simp(t.Args[2])
+				}
+			}
+		}
+	}
+	p.simpMemo[t.ID] = r
+	return r
+}
+
 // Decide resolves a symbolic branch condition.
 func (p *Path) Decide(c *Term) bool {
 	if c.IsConst() {
@@ -274,6 +353,12 @@ func (p *Path) Decide(c *Term) bool {
 	}
 	if c.S.K != SBool {
 		panic("Decide on non-bool")
+	}
+	if len(p.dom) > 0 {
+		c = p.simp(c)
+		if c.IsConst() {
+			return c.C != 0
+		}
 	}
 	fastBoth := false
 	if c.SV != nil {
@@ -326,6 +411,9 @@ func (p *Path) Decide(c *Term) bool {
 				feasF = true
 			}
 		}
+	}
+	if os.Getenv("POLYSYM_TRACE") != "" {
+		fmt.Fprintf(os.Stderr, "DECIDE t%d %s feasT=%v feasF=%v fast=%v pos=%d\n", c.ID, termString(c, 3), feasT, feasF, fastBoth, p.pos)
 	}
 	d := feasT
 	if feasT && feasF {
@@ -471,6 +559,12 @@ func (p *Path) Assume(c Value) {
 func (p *Path) Decide1(c *Term) bool {
 	if c.IsConst() {
 		return c.C != 0
+	}
+	if len(p.dom) > 0 {
+		c = p.simp(c)
+		if c.IsConst() {
+			return c.C != 0
+		}
 	}
 	if c.SV != nil {
 		t, f := p.tabRange(c)
@@ -638,6 +732,11 @@ func (p *Path) Assert(c Value, clause string) {
 	}
 	if ct.IsConst() && ct.C != 0 {
 		return
+	}
+	if len(p.dom) > 0 && !ct.IsConst() {
+		if s := p.simp(ct); s.IsConst() && s.C != 0 {
+			return
+		}
 	}
 	if ct.SV != nil {
 		// the narrowed domain over-approximates the feasible values: all-true on it is conclusive
@@ -899,4 +998,18 @@ func (p *Path) byteTerm(v Value) *Term {
 		return p.tt().Const(BV(8), uint64(x))
 	}
 	panic(fmt.Sprintf("byteTerm: %T", v))
+}
+
+func termString(t *Term, depth int) string {
+	if t.Op == OpConst || t.Op == OpVar || t.Op == OpRConst {
+		return refName(t)
+	}
+	if depth == 0 {
+		return refName(t)
+	}
+	var as []string
+	for _, a := range t.Args {
+		as = append(as, termString(a, depth-1))
+	}
+	return fmt.Sprintf("(%s %s)", opNames[t.Op], strings.Join(as, " "))
 }
